@@ -173,6 +173,10 @@ func runSchedCase(c SchedCase) (vkit.Info, error) {
 	handBack := false
 	for rep := 0; rep < reps; rep++ {
 		st, err := runSchedOnce(&c, x, rep)
+		if err == errUnsound {
+			info.Inconclusive = true
+			return info, nil
+		}
 		if err != nil {
 			return info, fmt.Errorf("execution %d of %d: %v", rep+1, reps, err)
 		}
